@@ -149,3 +149,17 @@ func HarnessC05Inner() {
 	vAssert(err == nil, "text-behind-a-directive-keyword-renders-without-error")
 	vAssert(vEqStr(out, want), "text-between-constructs-is-emitted-byte-for-byte")
 }
+
+
+// HarnessC05Tail: K symbolic bytes in front of a long concrete tail (the lexer looks ahead up to the length of the
+// longest directive name): an escaping backslash is removed only in front of a real directive or "{{".
+func HarnessC05Tail() {
+	head := symBytes("h", vParam("K"))
+	src := head + []string{"edia print 0123456789", "if(true) 0123456789ab", "{ 1 }} 0123456789abcd", "home\\users 0123456789"}[vChoice("tail", 4)]
+	vAssume(refPure(src))
+	want := refRender(src)
+	out, err := EvaluateString(src, nil)
+	vCover("rendered")
+	vAssert(err == nil, "pure-text-renders-without-error")
+	vAssert(vEqStr(out, want), "pure-text-renders-to-itself")
+}
